@@ -624,7 +624,7 @@ def create_tree_likelihood(id_, taxa, alignment, arg):
         # only use regression for heterochronous data
         if max(dates) != min(dates):
             rate_init_r, root_height_init = run_tree_regression(arg, taxa)
-            if arg.rate_init is None:
+            if arg.rate_init is None or arg.rate_init == "regression":
                 rate_init = rate_init_r
             if arg.root_height_init is None:
                 arg.root_height_init = max(dates) - root_height_init
